@@ -14,13 +14,8 @@ Open Scope Z_scope.
 Lemma partinv_init unit off : 0 < unit -> StInv (init unit off).
 Proof.
   intros Hu. unfold StInv, init; cbn. constructor; cbn; try set_solver.
-  - exact Hu.
   - intros n s. rewrite lookup_empty. discriminate.
   - intros n Hn. unfold live_sectors in Hn; cbn in Hn. set_solver.
-  - unfold live_sectors; cbn. rewrite <- (spow_empty ∅). apply spow_eq. set_solver.
-  - symmetry. apply spow_empty.
-  - symmetry. apply spow_empty.
-  - symmetry. apply spow_empty.
   - unfold live_sectors; cbn. replace (∅ ∖ ∅) with (∅ : gset N) by (apply seteq_L; set_solver).
     apply QInv_empty.
   - apply ETInv_empty.
@@ -47,11 +42,22 @@ Proof.
   assert (Hnn : forall X, X ⊆ live_sectors p -> pp_nonneg (spow tbl X) = true).
   { intros X HX. destruct (spow_nonneg tbl _ X pi_tbl HX) as [A B].
     unfold pp_nonneg. apply andb_true_intro. split; apply Z.leb_le; assumption. }
+  assert (Hmono : forall X Y, Y ⊆ live_sectors p -> X ⊆ Y ->
+            (raw (spow tbl X) <=? raw (spow tbl Y)) = true).
+  { intros X Y HY HX. apply Z.leb_le. eapply spow_raw_mono; [exact pi_tbl|exact HY|exact HX]. }
   unfold validate_state, validate_power_state, validate_bf_state, subset, disjoint_b.
   rewrite pi_live_power, pi_unproven_power, pi_faulty_power, pi_recovering_power.
-  repeat (apply andb_true_intro; split); try (apply Hnn; set_solver);
-    try (apply Z.leb_le; eapply spow_raw_mono; [exact pi_tbl| |]; set_solver);
-    apply bool_decide_eq_true; set_solver.
+  rewrite (Hnn (live_sectors p)) by reflexivity.
+  rewrite (Hnn (unproven p) SU), (Hnn (faults p) SF), (Hnn (recoveries p) SR).
+  rewrite (Hmono (unproven p) (live_sectors p)) by (reflexivity || exact SU).
+  rewrite (Hmono (faults p) (live_sectors p)) by (reflexivity || exact SF).
+  rewrite (Hmono (recoveries p) (live_sectors p)) by (reflexivity || exact SR).
+  rewrite (Hmono (recoveries p) (faults p) SF pi_rec_faults).
+  cbn [andb].
+  rewrite !bool_decide_eq_true_2; [reflexivity| | |].
+  - exact pi_rec_faults.
+  - clear -pi_faults_sectors pi_unproven_sectors pi_terminated_sectors. set_solver.
+  - clear -pi_unproven_terminated pi_faults_terminated. set_solver.
 Qed.
 
 (* ---------- one step ---------- *)
@@ -73,11 +79,11 @@ Proof.
   pose proof (pi_unproven_faults _ _ _ HS) as DUF.
   pose proof (pi_unproven_terminated _ _ _ HS) as DUT.
   pose proof (pi_faults_terminated _ _ _ HS) as DFT.
-  unfold next, step, step_delta, st_credited, StInv; cbn [st_q st_tbl st_part fst snd].
+  unfold next, step, step_delta, st_credited, StInv; cbn [st_q st_tbl st_part fst snd with_part].
   destruct o as [proven secs|nums fe|nums| | |fe skipped|fe|epoch nums|until|old new|new_exp nums|mx].
   - (* AddSectors *)
     destruct Hwf as [Hnd Hok].
-    destruct (p_add_sectors qs p proven secs) as [[[p' pw] fee]|] eqn:E; cbn [fst snd st_q st_tbl st_part];
+    destruct (p_add_sectors qs p proven secs) as [[[p' pw] fee]|] eqn:E; cbn [fst snd st_q st_tbl st_part with_part];
       [|split; [exact HS|symmetry; apply pp_add_0]].
     destruct (p_add_sectors_inv qs tbl p proven secs p' pw fee HS Hnd Hok E)
       as (HP' & Dx & S' & F' & T' & U' & -> & _).
@@ -87,69 +93,69 @@ Proof.
     { intros n Hn. apply store_sectors_lookup_ne. unfold live_sectors in Hn. clear -Hn Dx. set_solver. }
     rewrite <- (credited_tbl_ext tbl tbl' p Hext). unfold credited, active_sectors, live_sectors.
     rewrite S', F', T', U'. destruct proven.
-    + symmetry. rewrite <- spow_add_eq; [reflexivity| |].
+    + apply spow_add_eq.
       * pose proof (pi_faults_sectors _ _ _ HS). pose proof (pi_unproven_sectors _ _ _ HS).
         pose proof (pi_terminated_sectors _ _ _ HS). clear -Dx H H0 H1. set_solver.
       * clear -Dx. set_solver.
     + rewrite pp_add_0. apply spow_eq. clear -Dx. set_solver.
   - (* RecordFaults *)
-    destruct (p_record_faults qs tbl p (lset nums) fe) as [[[[p' nf] d] nfp]|] eqn:E;
-      cbn [fst snd st_q st_tbl st_part]; [|split; [exact HS|symmetry; apply pp_add_0]].
-    destruct (p_record_faults_inv qs tbl p (lset nums) fe p' nf d nfp HS E)
+    remember (lset nums) as Nn eqn:ENn. clear ENn.
+    destruct (p_record_faults qs tbl p (Nn) fe) as [[[[p' nf] d] nfp]|] eqn:E;
+      cbn [fst snd st_q st_tbl st_part with_part]; [|split; [exact HS|symmetry; apply pp_add_0]].
+    destruct (p_record_faults_inv qs tbl p (Nn) fe p' nf d nfp HS E)
       as (HP' & S' & T' & F' & U' & Enf & HnfS & _ & ->).
     split; [exact HP'|]. unfold credited, active_sectors, live_sectors. rewrite S', T', F', U'.
-    assert (Hcap : ((sectors p ∖ terminated p) ∖ faults p) ∖ unproven p ∩ nf ≡ nf ∖ unproven p)
-      by (rewrite Enf; clear -HnfS Enf; set_solver).
     rewrite (spow_add_eq tbl (((sectors p ∖ terminated p) ∖ faults p) ∖ unproven p)
                (((sectors p ∖ terminated p) ∖ (faults p ∪ nf)) ∖ (unproven p ∖ nf)) (nf ∖ unproven p)).
     + rewrite (spow_add_eq tbl nf (nf ∖ unproven p) (nf ∩ unproven p)).
       * apply pp_eq; cbn; lia.
-      * intros n. destruct (decide (n ∈ unproven p)); set_solver.
+      * clear. intros n. destruct (decide (n ∈ unproven p)); set_solver.
       * clear. set_solver.
-    + rewrite Enf. intros n. destruct (decide (n ∈ lset nums)); destruct (decide (n ∈ unproven p));
-        clear -DUF DUT; set_solver.
+    + subst nf. clear -HnfS. intros n. destruct (decide (n ∈ Nn)); destruct (decide (n ∈ unproven p));
+        destruct (decide (n ∈ terminated p)); destruct (decide (n ∈ faults p)); set_solver.
     + clear. set_solver.
   - (* DeclareFaultsRecovered *)
     destruct (p_declare_faults_recovered tbl p (lset nums)) as [p'|] eqn:E;
-      cbn [fst snd st_q st_tbl st_part]; [|split; [exact HS|symmetry; apply pp_add_0]].
+      cbn [fst snd st_q st_tbl st_part with_part]; [|split; [exact HS|symmetry; apply pp_add_0]].
     destruct (p_declare_faults_recovered_inv qs tbl p (lset nums) p' HS E)
       as (HP' & S' & F' & U' & T' & _).
     split; [exact HP'|]. rewrite pp_add_0. unfold credited, active_sectors, live_sectors.
     rewrite S', F', U', T'. reflexivity.
   - (* RecoverFaults *)
     destruct (p_recover_faults qs tbl p) as [[p' pw]|] eqn:E;
-      cbn [fst snd st_q st_tbl st_part]; [|split; [exact HS|symmetry; apply pp_add_0]].
+      cbn [fst snd st_q st_tbl st_part with_part]; [|split; [exact HS|symmetry; apply pp_add_0]].
     destruct (p_recover_faults_inv qs tbl p p' pw HS E) as (HP' & S' & F' & U' & T' & ->).
     split; [exact HP'|]. unfold credited, active_sectors, live_sectors. rewrite S', F', U', T'.
-    symmetry. rewrite <- spow_add_eq; [reflexivity| |clear; set_solver].
     pose proof (pi_rec_faults _ _ _ HS) as RF. unfold live_sectors in SF.
-    intros n. destruct (decide (n ∈ recoveries p)); clear -RF SF DUF; set_solver.
+    apply spow_add_eq; [|clear -RF; set_solver].
+    clear -RF SF DUF. intros n. destruct (decide (n ∈ recoveries p)); set_solver.
   - (* ActivateUnproven *)
-    destruct (p_activate_unproven p) as [p' pw] eqn:E. cbn [fst snd st_q st_tbl st_part].
+    destruct (p_activate_unproven p) as [p' pw] eqn:E. cbn [fst snd st_q st_tbl st_part with_part].
     destruct (p_activate_unproven_inv qs tbl p p' pw HS E) as (HP' & S' & F' & U' & T' & ->).
     split; [exact HP'|]. unfold credited, active_sectors, live_sectors. rewrite S', F', U', T'.
-    symmetry. rewrite <- spow_add_eq; [reflexivity| |clear; set_solver].
+    apply spow_add_eq; [|clear; set_solver].
     unfold live_sectors in SU.
-    intros n. destruct (decide (n ∈ unproven p)); clear -SU DUF; set_solver.
+    clear -SU DUF. intros n. destruct (decide (n ∈ unproven p)); set_solver.
   - (* RecordSkippedFaults *)
-    destruct (p_record_skipped_faults qs tbl p fe (lset skipped)) as [[[[[p' d] nfp] rrp] hnf]|] eqn:E;
-      cbn [fst snd st_q st_tbl st_part]; [|split; [exact HS|symmetry; apply pp_add_0]].
-    destruct (p_record_skipped_faults_inv qs tbl p fe (lset skipped) p' d nfp rrp hnf HS E)
+    remember (lset skipped) as Nn eqn:ENn. clear ENn.
+    destruct (p_record_skipped_faults qs tbl p fe (Nn)) as [[[[[p' d] nfp] rrp] hnf]|] eqn:E;
+      cbn [fst snd st_q st_tbl st_part with_part]; [|split; [exact HS|symmetry; apply pp_add_0]].
+    destruct (p_record_skipped_faults_inv qs tbl p fe (Nn) p' d nfp rrp hnf HS E)
       as (HP' & S' & T' & F' & U' & HnfS & _ & -> & _).
     split; [exact HP'|]. unfold credited, active_sectors, live_sectors. rewrite S', T', F', U'.
-    set (nf := (lset skipped ∖ terminated p) ∖ faults p) in *.
+    set (nf := (Nn ∖ terminated p) ∖ faults p) in *.
     rewrite (spow_add_eq tbl (((sectors p ∖ terminated p) ∖ faults p) ∖ unproven p)
                (((sectors p ∖ terminated p) ∖ (faults p ∪ nf)) ∖ (unproven p ∖ nf)) (nf ∖ unproven p)).
     + rewrite (spow_add_eq tbl nf (nf ∖ unproven p) (nf ∩ unproven p)).
       * apply pp_eq; cbn; lia.
-      * intros n. destruct (decide (n ∈ unproven p)); set_solver.
+      * clear. intros n. destruct (decide (n ∈ unproven p)); set_solver.
       * clear. set_solver.
-    + subst nf. intros n. destruct (decide (n ∈ lset skipped)); destruct (decide (n ∈ unproven p));
-        clear -DUF DUT HnfS; set_solver.
+    + subst nf. clear -HnfS. intros n. destruct (decide (n ∈ Nn)); destruct (decide (n ∈ unproven p));
+        destruct (decide (n ∈ terminated p)); destruct (decide (n ∈ faults p)); set_solver.
     + clear. set_solver.
   - (* RecordMissedPost *)
     destruct (p_record_missed_post qs p fe) as [[[[p' d] pen] nfp]|] eqn:E;
-      cbn [fst snd st_q st_tbl st_part]; [|split; [exact HS|symmetry; apply pp_add_0]].
+      cbn [fst snd st_q st_tbl st_part with_part]; [|split; [exact HS|symmetry; apply pp_add_0]].
     destruct (p_record_missed_post_inv qs tbl p fe p' d pen nfp HS E)
       as (HP' & S' & T' & F' & U' & -> & -> & _).
     split; [exact HP'|]. unfold credited, active_sectors. unfold live_sectors at 1. rewrite S', T', F', U'.
@@ -159,25 +165,26 @@ Proof.
     rewrite (spow_add_eq tbl (live_sectors p ∖ faults p)
                ((live_sectors p ∖ faults p) ∖ unproven p) (unproven p)).
     + apply pp_eq; cbn; lia.
-    + intros n. destruct (decide (n ∈ unproven p)); clear -SU DUF; set_solver.
+    + clear -SU DUF. intros n. destruct (decide (n ∈ unproven p)); set_solver.
     + clear. set_solver.
   - (* TerminateSectors *)
-    destruct (p_terminate_sectors qs tbl p epoch (lset nums)) as [[[p' rm] up]|] eqn:E;
-      cbn [fst snd st_q st_tbl st_part]; [|split; [exact HS|symmetry; apply pp_add_0]].
-    destruct (p_terminate_sectors_inv qs tbl p epoch (lset nums) p' rm up HS E)
+    remember (lset nums) as Nn eqn:ENn. clear ENn.
+    destruct (p_terminate_sectors qs tbl p epoch (Nn)) as [[[p' rm] up]|] eqn:E;
+      cbn [fst snd st_q st_tbl st_part with_part]; [|split; [exact HS|symmetry; apply pp_add_0]].
+    destruct (p_terminate_sectors_inv qs tbl p epoch (Nn) p' rm up HS E)
       as (HP' & HL & S' & T' & F' & U' & _ & -> & _).
     split; [exact HP'|]. unfold credited, active_sectors, live_sectors.
-    rewrite S', T', F'. rewrite (spow_eq tbl _ (((sectors p ∖ (terminated p ∪ lset nums)) ∖ (faults p ∖ lset nums)) ∖ (unproven p ∖ lset nums))).
+    rewrite S', T', F'. rewrite (spow_eq tbl _ (((sectors p ∖ (terminated p ∪ Nn)) ∖ (faults p ∖ Nn)) ∖ (unproven p ∖ Nn))).
     2:{ rewrite U'. reflexivity. }
     rewrite (spow_add_eq tbl (((sectors p ∖ terminated p) ∖ faults p) ∖ unproven p)
-               (((sectors p ∖ (terminated p ∪ lset nums)) ∖ (faults p ∖ lset nums)) ∖ (unproven p ∖ lset nums))
-               ((lset nums ∖ faults p) ∖ unproven p)).
+               (((sectors p ∖ (terminated p ∪ Nn)) ∖ (faults p ∖ Nn)) ∖ (unproven p ∖ Nn))
+               ((Nn ∖ faults p) ∖ unproven p)).
     + apply pp_eq; cbn; lia.
-    + unfold live_sectors in HL. intros n. destruct (decide (n ∈ lset nums)); clear -HL; set_solver.
+    + unfold live_sectors in HL. clear -HL. intros n. destruct (decide (n ∈ Nn)); set_solver.
     + clear. set_solver.
   - (* PopExpiredSectors *)
     destruct (p_pop_expired_sectors p until) as [[p' popped]|] eqn:E;
-      cbn [fst snd st_q st_tbl st_part]; [|split; [exact HS|symmetry; apply pp_add_0]].
+      cbn [fst snd st_q st_tbl st_part with_part]; [|split; [exact HS|symmetry; apply pp_add_0]].
     destruct (p_pop_expired_sectors_inv qs tbl p until p' popped HS E)
       as (HP' & HL & U0 & S' & T' & F' & U' & -> & _).
     split; [exact HP'|]. unfold credited, active_sectors, live_sectors. rewrite S', T', F', U', U0.
@@ -185,15 +192,15 @@ Proof.
     rewrite (spow_add_eq tbl (((sectors p ∖ terminated p) ∖ faults p) ∖ ∅)
                (((sectors p ∖ (terminated p ∪ E0)) ∖ (faults p ∖ E0)) ∖ ∅) (E0 ∖ faults p)).
     + apply pp_eq; cbn; lia.
-    + unfold live_sectors in HL. intros n. destruct (decide (n ∈ E0)); clear -HL; set_solver.
+    + unfold live_sectors in HL. clear -HL. intros n. destruct (decide (n ∈ E0)); set_solver.
     + clear. set_solver.
   - (* ReplaceSectors *)
     destruct Hwf as (Hndn & Hokn & Hnums).
-    destruct (load_sectors tbl (lset old)) as [oi|] eqn:El; cbn [fst snd st_q st_tbl st_part];
+    destruct (load_sectors tbl (lset old)) as [oi|] eqn:El; cbn [fst snd st_q st_tbl st_part with_part];
       [|split; [exact HS|symmetry; apply pp_add_0]].
     destruct (load_from_live _ _ _ _ _ HS El) as (Hfo & Hndo & Hno).
     destruct (p_replace_sectors qs p oi new) as [[[[p' dpow] dpl] dfee]|] eqn:E;
-      cbn [fst snd st_q st_tbl st_part]; [|split; [exact HS|symmetry; apply pp_add_0]].
+      cbn [fst snd st_q st_tbl st_part with_part]; [|split; [exact HS|symmetry; apply pp_add_0]].
     assert (Hnums' : forall s, s ∈ new -> s_num s ∈ nums_of oi \/ s_num s ∉ sectors p)
       by (rewrite Hno; exact Hnums).
     destruct (p_replace_sectors_inv qs tbl p oi new p' dpow dpl dfee HS Hfo Hndo Hndn Hokn Hnums' E)
@@ -213,14 +220,14 @@ Proof.
       unfold active_sectors, live_sectors in Hn1. clear -H Hn1. set_solver.
   - (* RescheduleExpirations *)
     destruct (p_reschedule_expirations qs tbl p new_exp (lset nums)) as [[p' infos]|] eqn:E;
-      cbn [fst snd st_q st_tbl st_part]; [|split; [exact HS|symmetry; apply pp_add_0]].
+      cbn [fst snd st_q st_tbl st_part with_part]; [|split; [exact HS|symmetry; apply pp_add_0]].
     destruct (p_reschedule_expirations_inv qs tbl p new_exp (lset nums) p' infos HS E)
       as (HP' & S' & F' & U' & T' & Hpow).
     split; [exact HP'|]. rewrite pp_add_0. unfold credited. rewrite Hpow.
     unfold active_sectors, live_sectors. rewrite S', F', U', T'. reflexivity.
   - (* PopEarlyTerminations *)
     destruct (p_pop_early_terminations p mx) as [[[[p' res] n] more]|] eqn:E;
-      cbn [fst snd st_q st_tbl st_part]; [|split; [exact HS|symmetry; apply pp_add_0]].
+      cbn [fst snd st_q st_tbl st_part with_part]; [|split; [exact HS|symmetry; apply pp_add_0]].
     destruct (p_pop_early_terminations_inv qs tbl p mx p' res n more HS E)
       as (HP' & S' & F' & U' & T' & _).
     split; [exact HP'|]. rewrite pp_add_0. unfold credited, active_sectors, live_sectors.
@@ -261,4 +268,52 @@ Proof.
   - destruct Hwf as [H1 H2]. fold (run (next st o) r).
     rewrite IH by (try apply partinv_step; assumption).
     rewrite (delta_is_difference st o HS H1). apply pp_eq; cbn; lia.
+Qed.
+
+(* ---------- corollaries ---------- *)
+Theorem live_sector_in_exactly_one_set qs tbl p n :
+  PartInv qs tbl p -> n ∈ sectors p ∖ terminated p ->
+  exists k es, expirations p !! k = Some es /\
+    ((n ∈ on_time es /\ n ∉ early es) \/ (n ∈ early es /\ n ∉ on_time es)) /\
+    forall k' es', expirations p !! k' = Some es' -> n ∈ on_time es' ∪ early es' -> k' = k.
+Proof.
+  intros HP Hn. pose proof (pi_queue _ _ _ HP) as HQ. unfold live_sectors in HQ.
+  apply (qi_cover _ _ _ _ _ HQ) in Hn as (k & es & Hk & Hn). exists k, es. split; [exact Hk|]. split.
+  - pose proof (ei_disj _ _ _ _ _ (qi_entry _ _ _ _ _ HQ _ _ Hk)) as D. unfold es_all in Hn.
+    apply elem_of_union in Hn as [Hn|Hn]; [left|right]; (split; [exact Hn|]); set_solver.
+  - intros k' es' Hk' Hn'. eapply (qinv_unique _ _ _ _ _ k' k es' es n HQ); eauto.
+Qed.
+
+Theorem rejected_unchanged st o : snd (fst (step st o)) <> 0 -> next st o = st.
+Proof.
+  unfold next, step. destruct st as [qs tbl p]. cbn [st_q st_tbl st_part].
+  destruct o; cbn [fst snd];
+    repeat match goal with
+    | |- context [match ?x with Ok _ => _ | Err _ => _ end] => destruct x as [?r|?c]
+    | |- context [let '(_, _) := ?x in _] => destruct x
+    | r : (_ * _)%type |- _ => destruct r
+    end; cbn [fst snd]; congruence.
+Qed.
+
+Lemma sector_ok_b_sound s : sector_ok_b s = true -> sector_ok s (s_num s).
+Proof.
+  unfold sector_ok_b, sector_ok. rewrite !andb_true_iff, !Z.leb_le. tauto.
+Qed.
+
+Lemma op_wf_b_sound st o : op_wf_b st o = true -> op_wf st o.
+Proof.
+  destruct o; cbn [op_wf_b op_wf]; try (intros; exact I).
+  - rewrite andb_true_iff, bool_decide_eq_true, forallb_forall. intros [H1 H2]. split; [exact H1|].
+    apply List.Forall_forall. intros s Hs. apply sector_ok_b_sound, H2, Hs.
+  - rewrite !andb_true_iff, bool_decide_eq_true, !forallb_forall. intros [[H1 H2] H3].
+    split; [exact H1|]. split.
+    + apply List.Forall_forall. intros s Hs. apply sector_ok_b_sound, H2, Hs.
+    + intros s Hs. apply elem_of_list_In in Hs. specialize (H3 s Hs).
+      apply orb_true_iff in H3 as [H3|H3]; apply bool_decide_eq_true in H3; auto.
+Qed.
+
+Lemma all_wf_b_sound ops : forall st, all_wf_b st ops = true -> all_wf st ops.
+Proof.
+  induction ops as [|o r IH]; intros st; cbn [all_wf_b all_wf]; [auto|].
+  rewrite andb_true_iff. intros [H1 H2]. split; [apply op_wf_b_sound, H1|apply IH, H2].
 Qed.
